@@ -82,6 +82,7 @@ def main():
     ap.add_argument("--workers", type=int, default=None)
     ap.add_argument("--tests", action="store_true")
     ap.add_argument("--seeded", action="store_true")
+    ap.add_argument("--check", default=None, help="run this property's check instead of the patch's own property")
     args = ap.parse_args()
     patches = []
     if args.seeded:
@@ -97,7 +98,10 @@ def main():
         patches = [p for p in patches if any(n in p for n in args.names)]
     results = []
     for p in patches:
-        r = run_one(args.prop, p, args.budget, args.tests, args.workers)
+        r = run_one(args.check or args.prop, p, args.budget, args.tests, args.workers)
+        if args.check:
+            r["checked_with"] = args.check
+            r["name"] = r["name"] + "@" + args.check
         results.append(r)
         print(json.dumps(r), flush=True)
     # keep the outcome next to the patches: selftest/logs/<prop>-<own|seeded>.jsonl (entries replaced by name)
